@@ -107,7 +107,8 @@ Definition model_registries : list regdesc := [
   {| rd_name := "l2cap.ChannelManager.identifiers";           rd_key := KHandle; rd_hook := HkL2cap |};
   {| rd_name := "l2cap.ChannelManager.channels";              rd_key := KHandle; rd_hook := HkL2cap |};
   {| rd_name := "l2cap.ChannelManager.le_coc_channels";       rd_key := KHandle; rd_hook := HkL2cap |};
-  {| rd_name := "l2cap.ChannelManager.pending_credit_based_connections"; rd_key := KHandle; rd_hook := HkL2cap |}
+  {| rd_name := "l2cap.ChannelManager.pending_credit_based_connections"; rd_key := KHandle; rd_hook := HkL2cap |};
+  {| rd_name := "l2cap.ChannelManager.le_coc_requests";       rd_key := KHandle; rd_hook := HkL2cap |}
 ].
 
 Definition table := list regdesc.
@@ -150,7 +151,9 @@ Inductive wkind :=
 | WDisconnect             (* Device.disconnect(): Disconnect command + wait for the event *)
 | WHciCommand             (* Host.send_command: released by the controller's answer, or by transport loss *)
 | WLate (hk : hook).      (* an HCI command followed by a wait that is registered only once the command
-                             status has come back: get_remote_le_features, request_remote_name, ... *)
+                             status has come back and the task has run again: get_remote_le_features,
+                             set_phy, authenticate, encrypt, ...; a wait registered on a connection that
+                             is already gone is cancelled at once ([on_resume]) *)
 
 Inductive outcome := OResult | OError | OCancelled | OTimeout.
 
@@ -158,7 +161,8 @@ Inductive wstate :=
 | Pending          (* registered with its release mechanism *)
 | Issuing          (* WLate: command sent, status not yet delivered *)
 | Responded        (* WLate: status delivered to the host, the awaiting task has not run yet *)
-| Hung             (* registered after the connection was already gone: nothing will ever release it *)
+| Hung             (* registered after the connection was already gone: nothing will ever release it
+                      (unreachable since Connection.cancel_on_disconnection checks; kept for the codes) *)
 | Done (o : outcome).
 
 Record waiter := { w_id : Z; w_kind : wkind; w_key : key; w_st : wstate }.
@@ -264,10 +268,22 @@ Definition on_tick (d : list Z) (x : waiter) : waiter :=
   | _, _ => x
   end.
 
+(* the task that awaited a command status runs again and registers its wait:
+   Connection.cancel_on_disconnection cancels at once when the connection is already gone
+   (the Connection remembers its disconnection); Device.request_remote_name registers for
+   'flush' before sending, so it has been cancelled by then as well *)
+Definition on_resume (d : list Z) (x : waiter) : waiter :=
+  match w_st x, w_kind x with
+  | Responded, WLate _ =>
+      if mem (kconn (w_key x)) d then set_st x Pending else set_st x (Done OCancelled)
+  | _, _ => x
+  end.
+
 Definition step (tbl : table) (s : state) (o : op) : state :=
   if lost s then
     match o with
     | Tick => upd s (ctl s) (c2h s) (h2c s) (map (on_tick (dev s)) (waiters s))
+    | Resume w => upd s (ctl s) (c2h s) (h2c s) (map_waiter w (on_resume (dev s)) (waiters s))
     | _ => s                       (* the stack is detached from its controller *)
     end
   else
@@ -333,13 +349,7 @@ Definition step (tbl : table) (s : state) (o : op) : state :=
           else upd s (ctl s) (c2h s) q (waiters s)
       | CCmd w :: q => upd s (ctl s) (c2h s ++ [EResp w]) q (waiters s)
       end
-  | Resume w =>
-      upd s (ctl s) (c2h s) (h2c s)
-          (map_waiter w (fun x => match w_st x, w_kind x with
-                                  | Responded, WLate _ =>
-                                      if mem (kconn (w_key x)) (dev s) then set_st x Pending else set_st x Hung
-                                  | _, _ => x
-                                  end) (waiters s))
+  | Resume w => upd s (ctl s) (c2h s) (h2c s) (map_waiter w (on_resume (dev s)) (waiters s))
   | Loss =>
       (* pending command fails; every connection the host knows goes through the fan-out;
          'flush'; nothing crosses the boundary any more *)
@@ -352,32 +362,7 @@ Definition step (tbl : table) (s : state) (o : op) : state :=
 
 Definition run (tbl : table) (ops : list op) (s : state) : state := fold_left (step tbl) ops s.
 
-(* ------------------------------------------------------------------ the race a cut may hit *)
-(* A call of kind [WLate] registers its wait only after the status of its HCI command has
-   come back and the awaiting task has run again.  If the host processes the disconnection
-   of that connection (or the transport loss) inside this window, the wait is registered on
-   a connection that is already gone and nothing releases it.  [race_free] holds of the
-   histories in which no connection is torn down inside such a window. *)
-Definition late_on (h : Z) (x : waiter) : bool :=
-  match w_st x with Issuing | Responded => kconn (w_key x) =? h | _ => false end.
 Definition is_responded (x : waiter) : bool := match w_st x with Responded => true | _ => false end.
-
-Definition step_race_free (s : state) (o : op) : bool :=
-  if lost s then true else
-  match o with
-  | DeliverC2H => match c2h s with
-                  | EDisc h :: _ => negb (existsb (late_on h) (waiters s))
-                  | _ => true
-                  end
-  | Loss => negb (existsb is_responded (waiters s))
-  | _ => true
-  end.
-
-Fixpoint race_free (tbl : table) (ops : list op) (s : state) : bool :=
-  match ops with
-  | [] => true
-  | o :: r => step_race_free s o && race_free tbl r (step tbl s o)
-  end.
 
 (* ------------------------------------------------------------------ observations *)
 (* what the host will hold once it has processed everything that is on its way *)
@@ -391,6 +376,10 @@ Fixpoint replay (q : list evt) (t : list Z) : list Z :=
 
 Definition quiescent (s : state) : bool :=
   match c2h s, h2c s with [], [] => true | _, _ => false end.
+
+(* ... and no task is waiting to run (asyncio: the loop is idle) *)
+Definition settled (s : state) : bool :=
+  quiescent s && forallb (fun x => negb (is_responded x)) (waiters s).
 
 Definition live_waiter (d : list Z) (x : waiter) : bool :=
   is_done (w_st x) || mem (kconn (w_key x)) d.
